@@ -1865,10 +1865,150 @@ def corr_x(ctx, n_random):
     corr_leaves(ctx)
 
 
+# ---------------------------------------------------------------------------
+# source tie (DESIGN.md section 4.5): harness/translate/deephashprep.py regenerates the serialiser of deephash.py
+# (DDGen.HashGen) from the CURRENT source; coq/srctie/HashGenEquiv.v proves it equal to Hash/HashModel.v
+# ---------------------------------------------------------------------------
+
+TIE_NAME = "deephashprep"
+SOURCE_TIES = [{
+    "name": TIE_NAME, "translator": "deephashprep", "gen_module": "HashGen", "equiv": ["HashGenEquiv"],
+    "needs": ["Hash.HashSrcPrims", "Hash.HashProofsMemo", "Hash.HashShow", "Properties.C06"],
+    "sources": ["deepdiff/deephash.py", "deepdiff/helper.py", "deepdiff/base.py"],
+    "fragment": "KEY_TO_VAL_STR, INDEX_VS_ATTRIBUTE, prepare_string_for_hashing, DeepHash._prep_bool / _prep_path / _prep_number / "
+                "_prep_ipranges / _prep_datetime / _prep_date / _prep_iterable / _prep_dict / _prep_tuple / _hash (dispatch order, "
+                "memo lookup and write, BoolObj substitution, apply_hash + hasher); item counts, parent paths and the options outside "
+                "Hash/HashModel.v are not translated (rules C, P, F of the translator)",
+}]
+
+TIE_ATOMS = [None, True, 1, 1.0, 1.5, "a", "__p", b"a"]
+TIE_KEYS = ["a", "b", "__p", 1, None, b"a", ""]
+TIE_HEADER = ("From DD Require Import Base.PyStr Base.Value Hash.HashModel Hash.HashShow Hash.HashSrcPrims.\n"
+              "From DDGen Require Import HashGen.\n"
+              "Local Open Scope Z_scope.\n"
+              "(* generated serialiser (fuel 6 > nesting depth of every value below) and hand-written model, same rendering *)\n"
+              "Definition tie_gen (o : hopts) (v : value) : sx :=\n"
+              "  let r := g_hash 6 (mk_hself o hexhash None) (OV v) tt [] in SL [sx_str (py_str (fst r)); sx_memo (snd r)].\n")
+
+
+def tie_universe():
+    """bounded-exhaustive: every list / tuple of length <= 2, set / frozenset of size <= 2, one-item dict over the atoms above,
+    a few two-item dicts and repetitions, and a representative of every depth-1 shape inside each container kind (depth 2)"""
+    A = TIE_ATOMS
+    d1 = []
+    for mk in (list, tuple):
+        d1.append(mk([]))
+        d1 += [mk([a]) for a in A]
+        d1 += [mk([a, b]) for a in A for b in A]
+    for mk in (set, frozenset):
+        d1.append(mk())
+        d1 += [mk([a]) for a in A]
+        d1 += [mk([a, b]) for i, a in enumerate(A) for b in A[i + 1:] if a != b]
+    d1.append({})
+    d1 += [{k: a} for k in TIE_KEYS for a in A]
+    d1 += [{"a": 1, "b": 2}, {"b": 2, "a": 1}, {"__p": 1, "b": 2}, {"a": 0.0, 0: 0.5}, {0: 0.5, "a": 0.0}, {1: "x", 1.5: "x"},
+           [1, 2, 1], [1, 1, 2], ["a", "a", "a"], (1.0, 1, True), [1, 1.0], [1.0, 1], ["NONE", None], ["int:1", 1]]
+    reps = ["[]", "[1]", "[1, 1.0]", "['a', 'a']", "()", "(1,)", "(1.0,)", "('a', None)", "set()", "{1}", "{'a', 1.5}", "frozenset()",
+            "frozenset({1})", "frozenset({1.0})", "{}", "{'a': 1}", "{'__p': 1}", "{1: True}", "{'a': 1, 'b': 2}", "{'b': 2, 'a': 1}"]
+    d2 = []
+    for e in reps:
+        for tpl in ("[%s]", "[%s, 1]", "[%s, %s]", "(%s,)", "('a', %s)", "{'k': %s}", "{'__p': %s, 'b': %s}"):
+            d2.append(from_repr(tpl % ((e,) * tpl.count("%s"))))         # every occurrence is a fresh object
+    out, seen = [], set()
+    for v in A + d1 + d2:
+        k = (type(v).__name__, values.to_coq(v))
+        if k not in seen and in_model_range(v, small_ints=True):
+            seen.add(k)
+            out.append(v)
+    return out
+
+
+def on_source_tie_break(ctx, name, rec):
+    """core.source_tie_step calls this when the tie is not intact.  If the regenerated model compiled, difference it against
+    the hand-written model inside Coq on the bounded-exhaustive universe above x every option record the module runs, take the
+    first (value, options) on which they differ, and judge those inputs like any generated case: the ordinary correspondence
+    (real DeepHash vs Hash/HashModel.v, exact strings and table) and the direct oracle.  Nothing here calls ctx.fail / ctx.break_
+    by itself."""
+    status = rec.get("status")
+    if status in ("translator-rejected", "generated-model-does-not-compile"):
+        return {"searched": "nothing to evaluate (%s): the streams of run() are escalated to thorough-size budgets instead" % status}
+    gen_dir = os.path.join(ctx.scratch, "srctie")
+    if not os.path.exists(os.path.join(gen_dir, "HashGen.vo")):
+        return {"searched": "nothing to evaluate: no compiled HashGen in the scratch directory"}
+    ctx.ensure_built(TIE_HEADER)
+    univ = tie_universe()
+    recs = MODES4 + OPTION_SAMPLES
+    pairs = [(v, o) for v in univ for o in recs if not (o[4] and has_empty_key(v))]
+    import re
+    from concurrent.futures import ThreadPoolExecutor
+    nfile = [0]
+
+    def evaluate(lo, hi):
+        """[(index, generated model's output)] for the differing cases among pairs[lo:hi]; a shard whose evaluation overflows
+        coqc's stack (long outputs when many cases differ) is split in two"""
+        nfile[0] += 1
+        fn = os.path.join(ctx.scratch, "tie_diff_%d_%d_%d.v" % (lo, hi, nfile[0]))
+        with open(fn, "w") as f:
+            f.write("From Coq Require Import List String ZArith NArith Bool.\nImport ListNotations.\nFrom DD Require Import Base.Sx.\n")
+            f.write(TIE_HEADER + "Local Open Scope string_scope.\nDefinition cases : list (sx * sx) := [\n")
+            f.write(";\n".join("(tie_gen %s %s,\n run_one %s %s)" % (coq_opts(o), values.to_coq(v), coq_opts(o), values.to_coq(v))
+                               for (v, o) in pairs[lo:hi]))
+            f.write("\n].\nEval vm_compute in run_cases cases.\n")
+        rc, out = core.sh(["coqc", "-Q", core.THEORIES, "DD", "-Q", gen_dir, "DDGen", fn], timeout=900, cwd=ctx.scratch)
+        m = re.search(r'"BEGIN\n(.*)END"', out, re.S)
+        if rc != 0 or not m:
+            if hi - lo > 1 and "Stack overflow" in out:
+                mid = (lo + hi) // 2
+                return evaluate(lo, mid) + evaluate(mid, hi)
+            errors.append(out[-600:])
+            return []
+        found = []
+        for line in m.group(1).replace('""', '"').splitlines():
+            if line.strip():
+                idx, _, txt = line.partition("\t")
+                found.append((lo + int(idx), txt))
+        return found
+    shard = 80
+    differing, errors = [], []
+    with ThreadPoolExecutor(max_workers=core.NCPU) as ex:
+        for part in ex.map(lambda k: evaluate(k, min(k + shard, len(pairs))), range(0, len(pairs), shard)):
+            differing += part
+    differing.sort()
+    res = {"universe_values": len(univ), "option_records": len(recs), "cases": len(pairs), "differing": len(differing),
+           "coqc_errors": errors[:2]}
+    if not differing:
+        res["searched"] = ("generated vs hand-written serialiser evaluated inside Coq (vm_compute, hex hasher, fresh table: root string "
+                           "and every table entry) on the bounded-exhaustive universe: " +
+                           ("no difference" if not errors else "NOT EVALUATED on %d shard(s) (coqc failed); no difference on the others" % len(errors)))
+        return res
+    # the distinct differing inputs, smallest first; judged by the module's ordinary correspondence and oracle
+    picked, seen_v = [], set()
+    for i, txt in sorted(differing, key=lambda d: (len(values.to_coq(pairs[d[0]][0])), d[0])):
+        v, o = pairs[i]
+        key = (values.to_coq(v), o)
+        if key not in seen_v:
+            seen_v.add(key)
+            picked.append((v, o, txt))
+        if len(picked) >= 12:
+            break
+    v0, o0, txt0 = picked[0]
+    res["first"] = {"value": expr_shared(v0), "opts": list(o0), "generated_model": txt0[:600],
+                    "implementation": core.sx_show([impl_hash(v0, o0, hexhasher)[0], table_of(impl_hash(v0, o0, hexhasher)[1].hashes, [v0])])[:600]}
+    for n_o, o in enumerate(sorted(set(o for (_v, o, _t) in picked), key=repr)):
+        corr_single(ctx, [copy.deepcopy(v) for (v, o2, _t) in picked if o2 == o], [o], "tie_replay_%d" % n_o, "source_tie_differing_inputs")
+    for (v, o, _txt) in picked:
+        oracle_value(ctx, copy.deepcopy(v), o, random.Random(0), hasher=None)
+        oracle_value(ctx, copy.deepcopy(v), o, random.Random(0), hasher=hexhasher)
+    res["replayed"] = len(picked)
+    return res
+
+
 def run(ctx):
     rng = ctx.rng
     sys.setrecursionlimit(10000)
-    n1 = 260 if ctx.thorough else 50
+    # a source tie that is not intact escalates the streams that exercise the serialiser to their thorough-size budgets
+    deep = ctx.thorough or ctx.tie_broken(TIE_NAME)
+    n1 = 260 if deep else 50
     vals = FIXED + make_values(rng, n1, 3) + make_values(rng, n1 // 4, 4)
     vals = [v for v in vals if in_model_range(v)]
     for v in vals:
@@ -1888,7 +2028,7 @@ def run(ctx):
     chains += [[{'a': 0.0}, {0: 0.5, 'a': 0.0}], [[1.0], [1, True]], [(1,), (1.0,), [(True,)]], [1, 1.0, True, [1.0]]]
     corr_chain(ctx, chains, MODES3, "hash_chain", "exact_strings_shared_table")
     # --- other options (smaller sample)
-    small = vals[:len(FIXED)] + rng.sample(vals[len(FIXED):], min(len(vals) - len(FIXED), 60 if ctx.thorough else 10))
+    small = vals[:len(FIXED)] + rng.sample(vals[len(FIXED):], min(len(vals) - len(FIXED), 60 if deep else 10))
     small = [v for v in small if in_model_range(v, small_ints=True)]
     corr_single(ctx, small, OPTION_SAMPLES, "hash_opts", "exact_strings_other_options")
     # --- SHA-256 equality pattern over a pool
